@@ -93,6 +93,13 @@ pub fn run(o: &Opts, drv: &mut Driver, rep: &mut Report) {
             one(drv, rep, "monomial", mono(i), mono((i + d) % 128)); } }
     }
     let mut rng = case_rng(o.seed, "c19");
+    // constant-byte operands (0x01 repeated is NOT the field's 1; 0x80 …, 0xff …): every byte value on either side
+    for v in 0..=255u8 {
+        let c = [v; 16];
+        let mut r = [0u8; 16]; rng.fill_bytes(&mut r);
+        one(drv, rep, "constant-byte", c, r); one(drv, rep, "constant-byte", r, c);
+        if v % 16 == 1 || v == 0xff || v == 0x80 { one(drv, rep, "constant-byte", c, c); one(drv, rep, "constant-byte", mono((v as usize) % 128), c); one(drv, rep, "constant-byte", c, mono((v as usize * 7) % 128)); }
+    }
     let n = if thorough { 200_000 } else { 1500 } * scale;
     let mut one1 = [0u8; 16]; one1[0] = 1;
     for k in 0..n {
